@@ -15,6 +15,7 @@
    that this fuel suffices whenever a chain exists; by C15_find_sound no later iteration
    could return anything but a valid chain, so for unreachable targets "fuel exhausted"
    and the loop's own exit give the same answer (nil). *)
+From Coq Require Import String.
 From Verif Require Import Common C15_Model C15_Spec C15_Proofs.
 
 (* ---- the search ---- *)
@@ -89,20 +90,65 @@ Theorem C15_success_iff_all_steps_and_count : forall desired chain outs req t a 
   convert desired chain outs req = (t, a) ->
   (a = Success objs <->
    t <> [] /\ (forall k, k < length t -> is_ok (nth k outs OExitFail) = true)
-   /\ last_out outs t = OResp None objs /\ all_at desired objs = true /\ length objs = length req).
+   /\ last_out outs t = OResp [] objs /\ all_at desired objs = true /\ length objs = length req).
 Proof. exact success_iff_all_steps_and_count. Qed.
 Print Assumptions C15_success_iff_all_steps_and_count.
 
+(* a hook's outcome carries its failedMessage as a byte string, [] = none given *)
 Theorem C15_failed_message_relayed : forall desired chain outs req t a k m objs,
   convert desired chain outs req = (t, a) -> k < length t ->
-  nth k outs OExitFail = OResp (Some m) objs -> a = Failed (MHook m).
+  nth k outs OExitFail = OResp m objs -> m <> [] -> a = Failed (MHook m).
 Proof. exact failed_message_relayed. Qed.
 Print Assumptions C15_failed_message_relayed.
 
-Theorem C15_handler_meets_spec : forall desired chain outs req t a,
-  convert desired chain outs req = (t, a) -> P_handler desired chain outs req t a = true.
+(* the Spec judges the ConversionReview answer (status and message text): [respond] writes
+   the abstract answer out, for any spelling [dtext] of the desired version *)
+Theorem C15_handler_meets_spec : forall dtext desired chain outs req t a,
+  convert desired chain outs req = (t, a) -> P_handler desired chain outs req t (respond dtext a) = true.
 Proof. exact handler_meets_spec. Qed.
 Print Assumptions C15_handler_meets_spec.
+
+(* ---- the message texts: conversionEventHandler's return value, then handleReviewRequest /
+        errored, as two functions over byte strings (C15_Model part 3) ---- *)
+
+(* the layered model and [convert] are the same function *)
+Theorem C15_serve_is_convert : forall dtext desired chain outs req,
+  serve dtext desired chain outs req =
+  (fst (convert desired chain outs req), respond dtext (snd (convert desired chain outs req))).
+Proof. exact serve_respond. Qed.
+Print Assumptions C15_serve_is_convert.
+
+(* handler.go: whatever bytes a non-empty FailedMessage consists of, they are the message *)
+Theorem C15_review_copies_message : forall requested m objs, m <> [] ->
+  handle_review requested (OpResponse m objs) = RFailure m.
+Proof. exact review_copies_message. Qed.
+Print Assumptions C15_review_copies_message.
+
+(* end to end, for every byte string: the failing hook's own message is the answer's message *)
+Theorem C15_failed_message_verbatim : forall dtext desired chain outs req t r k m objs,
+  serve dtext desired chain outs req = (t, r) -> k < length t ->
+  nth k outs OExitFail = OResp m objs -> m <> [] -> r = RFailure m.
+Proof. exact serve_message_verbatim. Qed.
+Print Assumptions C15_failed_message_verbatim.
+
+Theorem C15_serve_stop_at_first_failure : forall dtext desired chain outs req t r k,
+  serve dtext desired chain outs req = (t, r) -> k < length t -> is_ok (nth k outs OExitFail) = false ->
+  length t = S k /\ exists message, r = RFailure message.
+Proof. exact serve_stop_at_first_failure. Qed.
+Print Assumptions C15_serve_stop_at_first_failure.
+
+Theorem C15_serve_success_iff : forall dtext desired chain outs req t r objs,
+  serve dtext desired chain outs req = (t, r) ->
+  (r = RSuccess objs <->
+   t <> [] /\ (forall k, k < length t -> is_ok (nth k outs OExitFail) = true)
+   /\ last_out outs t = OResp [] objs /\ all_at desired objs = true /\ length objs = length req).
+Proof. exact serve_success_iff. Qed.
+Print Assumptions C15_serve_success_iff.
+
+Theorem C15_serve_meets_spec : forall dtext desired chain outs req t r,
+  serve dtext desired chain outs req = (t, r) -> P_handler desired chain outs req t r = true.
+Proof. exact serve_meets_spec. Qed.
+Print Assumptions C15_serve_meets_spec.
 
 (* ---- non-vacuity: the hypotheses are met by concrete non-trivial inputs ---- *)
 
@@ -127,10 +173,31 @@ Proof.
   split; [exact H | now apply cache_inv_base].
 Qed.
 
-(* three hooks, the second one answers failedMessage 7: two hook runs, the message relayed *)
+(* three hooks, the second one answers failedMessage "50% of %d" (a text full of what a
+   formatter would take for verbs): two hook runs, the message relayed as it is *)
 Example C15_handler_example :
   convert (None, 8)%N [((None,0),(None,3)); ((None,3),(None,5)); ((None,5),(None,8))]%N
-          [OResp None [(100, (None,3))]; OResp (Some 7) []; OResp None [(300, (None,8))]]%N
+          [OResp [] [(100, (None,3))]; OResp (str "50% of %d") []; OResp [] [(300, (None,8))]]%N
           [(1, (None,0))]%N
-  = ([(((None,0),(None,3)), [(1, (None,0))]); (((None,3),(None,5)), [(100, (None,3))])]%N, Failed (MHook 7%N)).
+  = ([(((None,0),(None,3)), [(1, (None,0))]); (((None,3),(None,5)), [(100, (None,3))])]%N,
+     Failed (MHook [53; 48; 37; 32; 111; 102; 32; 37; 100]%N)).
 Proof. vm_compute. reflexivity. Qed.
+
+Example C15_serve_example :
+  serve (str "v4") (None, 8)%N [((None,0),(None,3)); ((None,3),(None,5)); ((None,5),(None,8))]%N
+        [OResp [] [(100, (None,3))]; OResp (str "50% of %d") []; OResp [] [(300, (None,8))]]%N
+        [(1, (None,0))]%N
+  = ([(((None,0),(None,3)), [(1, (None,0))]); (((None,3),(None,5)), [(100, (None,3))])]%N,
+     RFailure (str "50% of %d"))
+  /\ snd (serve (str "v4") (None, 8)%N [((None,0),(None,8))]%N [OExitFail] [(1, (None,0))]%N)
+     = RFailure (str "Hook failed to convert to v4")
+  /\ snd (serve (str "v4") (None, 8)%N [((None,0),(None,8))]%N [ONoResponse] [(1, (None,0))]%N)
+     = RFailure (str "hook task prop error")
+  /\ snd (serve (str "v4") (None, 8)%N [((None,0),(None,8))]%N [OResp [] [(100, (None,3))]]%N [(1, (None,0))]%N)
+     = RFailure (str "Conversion to v4 was not successuful")
+  /\ snd (serve (str "v4") (None, 8)%N [((None,0),(None,8))]%N
+                [OResp [] [(100, (None,8)); (101, (None,8)); (102, (None,8)); (103, (None,8)); (104, (None,8));
+                           (105, (None,8)); (106, (None,8)); (107, (None,8)); (108, (None,8)); (109, (None,8))]]%N
+                [(1, (None,0))]%N)
+     = RFailure (str "hook returned 10 objects instead of 1").
+Proof. repeat split; vm_compute; reflexivity. Qed.
